@@ -6,5 +6,5 @@ W=$(mktemp -d /tmp/trial.XXXXXX)
 git -C /repo worktree add --detach "$W/wt" HEAD >/dev/null 2>&1 || { echo "WORKTREE FAILED"; rm -rf "$W"; exit 9; }
 git -C "$W/wt" apply "$PATCH" || { echo "APPLY FAILED"; git -C /repo worktree remove --force "$W/wt"; rm -rf "$W"; exit 9; }
 cd /verif
-OASVERIF_REPO="$W/wt" ./check "$@" --no-evidence 2>&1 | grep -E "^VIOLATION|^property=|^CHECKER|^UNDECIDED|^KNOWN" | cut -c1-250 | head -${SEED_LINES:-8}
+OASVERIF_REPO="$W/wt" OASVERIF_REPLAY_DIR="$W/replays" ./check "$@" --no-evidence 2>&1 | grep -E "^VIOLATION|^property=|^CHECKER|^UNDECIDED|^KNOWN" | cut -c1-250 | head -${SEED_LINES:-8}
 git -C /repo worktree remove --force "$W/wt"; rm -rf "$W"
